@@ -5,6 +5,7 @@ func AllRules() []*Rule {
 	var rs []*Rule
 	rs = append(rs, lockRules()...)
 	rs = append(rs, errRules()...)
+	rs = append(rs, txnRules()...)
 	return rs
 }
 
@@ -30,5 +31,24 @@ func init() {
 	Props["C17"] = PropInfo{
 		Explanation: "DONE-1..3 decide, on the SSA of every b-tree iteration level and adapter, that the done flag of an inner iteration is returned as-is or leads straight to a return of true with no intervening call, that adapters return the user callback's answer, and that top-level scans return only the iteration's error; LOCK-1 shows that the unlock is deferred and so covers the early return.",
 		NotDecided:  "That the traversal itself enumerates rows in the right order (C01/C02's traversal rules); nothing else data-dependent is needed.",
+	}
+}
+
+func init() {
+	Props["C07"] = PropInfo{
+		Explanation: "PAGER decides that the unix pager requests the pending byte and then the shared range with non-blocking F_SETLK read locks and returns both errors before any state change; LOCK-1 that a failed RLock returns before any page-reaching call (no rows); RD-TABLE extracts the decision table of resolveDirty by path enumeration: a hot journal without a live RESERVED lock is an error, every other combination proceeds to the header read; PAGER-6 that the RESERVED probe is F_GETLK/F_WRLCK on SQLite's reserved byte.",
+		NotDecided:  "What a real writer does in each lock state and that proceeding under RESERVED yields the last committed state (true because SQLite does not touch the file before EXCLUSIVE — an assumption about SQLite).",
+	}
+	Props["C08"] = PropInfo{
+		Explanation: "LOCK-3: RLock invalidates; TXN-1: every exported db function revalidates (resolveDirty) before any page read or cache lookup; RD-TABLE: dirty is cleared only after page 1 was re-read and re-parsed and the fresh header installed; TXN-3: the page cache survives only if the change counter was established unchanged, the schema cache only if the cookie was; TXN-5: the mapping must follow the file (violated: known finding).",
+		NotDecided:  "History-dependent aspects: that SQLite bumps the counters as assumed and cache coherence for particular interleavings.",
+	}
+	Props["C09"] = PropInfo{
+		Explanation: "RD-TABLE: the journal gate precedes the header read on every path of every revalidation and a hot journal without a RESERVED lock is an error; JRNL-2: the journal consulted is <file>-journal; JRNL-3: a journal is hot only if it opens, carries SQLite's magic, a sane sector size, a full header and a full first sector, and everything else except a non-ENOENT open error means `no journal`; PAGER-6 for the RESERVED probe.",
+		NotDecided:  "The actual crash-point semantics of a dying SQLite writer (a statement about SQLite's write ordering).",
+	}
+	Props["C15"] = PropInfo{
+		Explanation: "HDR: the stream layout of the struct decoded from the header equals fileformat2 §1.3 and, from the accepting paths of parseHeader (path enumeration with literal extraction), the accepted value set of every header field is computed (whole domain for 1- and 2-byte fields) and compared with the spec; fields that do not affect reading must not influence acceptance. RD-TABLE/TXN-1: the header is re-validated at the start of every transaction before any page read; ERR-2: the header error is propagated.",
+		NotDecided:  "Real WAL/UTF-16 files beyond their header bytes (only the header matters to sqlittle).",
 	}
 }
